@@ -100,6 +100,23 @@ def make_D2(opts):
     return K
 
 
+def make_U(opts):
+    # identifiers are not limited to ascii: the field names reach the generated code as they are
+    class K(Packet):
+        __bisturi__ = opts
+        tama\u00f1o = Int(1)
+        se\u00f1al = Int(1, default=3)
+    return K
+
+
+def make_U2(opts):
+    class K(Packet):
+        __bisturi__ = opts
+        tama\u00f1o = Int(1, signed=True)
+        se\u00f1al = Int(1, default=3)
+    return K
+
+
 def _make_L(opts, end):
     # a LONG declaration (41 fields, generated pack and unpack code of more than 4 KiB each, a cache file of more than 8 KiB);
     # the two declarations differ in the byte order of the LAST field only
@@ -167,12 +184,17 @@ def expected(decl):
                 out.append(('ok', tuple(vals)))
         elif decl == 'C':
             out.append(('ok', (raw[0], raw[1:2])) if len(raw) >= 2 else ('err',))
+        elif decl == 'U':
+            out.append(('ok', (raw[0], raw[1])) if len(raw) >= 2 else ('err',))
+        elif decl == 'U2':
+            out.append(('ok', (raw[0] - 256 if raw[0] >= 128 else raw[0], raw[1])) if len(raw) >= 2 else ('err',))
         elif decl == 'V':
             out.append(('ok', (raw[0], raw[1:1 + raw[0]])) if len(raw) >= 1 and len(raw) >= 1 + raw[0] else ('err',))
     packs = {'A': (b'\x00', b'\x05'), 'A2': (b'\x00', b'\x05'), 'B': (b'\x00\x00', b'\x00\x05'), 'C': (b'\x00\x00', b'\x05\x00'),
              'V': (b'\x00', b'\x05'), 'E': (b'\x00\x00', b'\x00\x05'), 'E2': (b'\x00\x00', b'\x05\x00'),
-             'L': (bytes(82), b'\x05' + bytes(81)), 'L2': (bytes(82), b'\x05' + bytes(81)), 'D': (b'\x00', b'\x05'), 'D2': (b'\x00', b'\x05')}[decl]
-    neg = {'A': ('err',), 'A2': ('ok', b'\xff'), 'B': ('err',), 'C': ('err',), 'V': ('err',), 'E': ('err',), 'E2': ('err',), 'L': ('err',), 'L2': ('err',), 'D': ('err',), 'D2': ('err',)}[decl]
+             'L': (bytes(82), b'\x05' + bytes(81)), 'L2': (bytes(82), b'\x05' + bytes(81)), 'D': (b'\x00', b'\x05'), 'D2': (b'\x00', b'\x05'),
+             'U': (b'\x00\x03', b'\x05\x03'), 'U2': (b'\x00\x03', b'\x05\x03')}[decl]
+    neg = {'A': ('err',), 'A2': ('ok', b'\xff'), 'B': ('err',), 'C': ('err',), 'V': ('err',), 'E': ('err',), 'E2': ('err',), 'L': ('err',), 'L2': ('err',), 'D': ('err',), 'D2': ('err',), 'U': ('err',), 'U2': ('ok', b'\xff\x03')}[decl]
     extra = ()
     if decl == 'D':
         extra = (('ok', b'\x03abc'),)          # K(d=b'abc').pack(): the length is computed
@@ -181,7 +203,8 @@ def expected(decl):
     return (tuple(out), ('ok', packs[0]), ('ok', packs[1]), neg) + extra
 
 
-FIELDS = {'A': ('a',), 'A2': ('a',), 'B': ('a',), 'C': ('a', 'b'), 'V': ('n', 'd'), 'E': ('a',), 'E2': ('a',), 'L': LNAMES, 'L2': LNAMES, 'D': ('n', 'd'), 'D2': ('n', 'd')}
+FIELDS = {'A': ('a',), 'A2': ('a',), 'B': ('a',), 'C': ('a', 'b'), 'V': ('n', 'd'), 'E': ('a',), 'E2': ('a',), 'L': LNAMES, 'L2': LNAMES, 'D': ('n', 'd'), 'D2': ('n', 'd'),
+          'U': ('tama\u00f1o', 'se\u00f1al'), 'U2': ('tama\u00f1o', 'se\u00f1al')}
 
 
 def battery(K, decl):
@@ -210,7 +233,7 @@ def battery(K, decl):
 
 def write_source(scratch):
     path = os.path.join(scratch, STEM + '.py')
-    with open(path, 'w') as f:
+    with open(path, 'w', encoding='utf-8') as f:
         f.write(SOURCE)
     os.utime(path, (1000000000, 1000000000))
     return path
@@ -392,7 +415,7 @@ print('RESULT ' + common.dumps(out))
 '''
 
 
-def real_define(scratch, clock, decl, opt, write_bytecode, optimize=False):
+def real_define(scratch, clock, decl, opt, write_bytecode, optimize=False, warn_error=False):
     """runs one definition in a REAL interpreter process on the directory as it is; only the time stamp of
     files the process itself writes is set to the harness clock. Returns the outcome."""
     code = CHILD % {'verif': common.VERIF, 'dwb': not write_bytecode, 'clock': clock, 'scratch': scratch, 'decl': decl, 'opt': opt}
@@ -400,7 +423,7 @@ def real_define(scratch, clock, decl, opt, write_bytecode, optimize=False):
     env['PYTHONHASHSEED'] = '0'
     env.pop('PYTHONDONTWRITEBYTECODE', None)
     env.pop('PYTHONOPTIMIZE', None)
-    r = subprocess.run([sys.executable] + (['-O'] if (optimize or sys.flags.optimize) else []) + ['-c', code], capture_output=True, text=True, env=env, timeout=120)
+    r = subprocess.run([sys.executable] + (['-O'] if (optimize or sys.flags.optimize) else []) + (['-W', 'error'] if warn_error else []) + ['-c', code], capture_output=True, text=True, env=env, timeout=120)
     for line in r.stdout.splitlines():
         if line.startswith('RESULT '):
             out = common.loads(line[7:])
